@@ -397,6 +397,84 @@ pub fn run(args: &Args) {
                 ctx!("multi-select-list-wide").check(&format!("[{}]", listed.join(", ")), &Ok(want_list), true);
             }
         }
+        // 8e. a right-hand side that ends in a call sees EVERY element the projection ranges over, null
+        // elements included (a call may map null to something), whichever bracket form started the projection
+        // and however the right-hand side is spelled (directly, or behind a member)
+        if i % 2 == 0 {
+            let mut xs: Vec<Value> = match &l_out {
+                Ok(Value::Array(a)) if rng.chance(1, 2) => a.iter().take(6).cloned().collect(),
+                _ => (0..rng.below(6)).map(|_| match rng.below(6) { 0 => Value::Null, 1 => sample_elem.clone(), 2 => json!({"a": rng.range(-3, 3)}), 3 => json!({"a": "x", "b": null}), 4 => json!([rng.range(0, 3), null]), _ => json!(rng.range(-2, 2)) }).collect(),
+            };
+            if rng.chance(2, 3) {
+                let at = rng.below(xs.len() + 1);
+                xs.insert(at, Value::Null);
+            }
+            let d = json!({"xs": xs, "o": xs.iter().enumerate().map(|(k, v)| (format!("k{}", k), v.clone())).collect::<serde_json::Map<String, Value>>()});
+            const TAILS: [&str; 14] = ["type(@)", "to_string(@)", "not_null(@, `0`)", "to_array(@)", "a.type(@)", "a.to_string(@)", "length(@)", "abs(@)", "keys(@)", "not_null(a, `1`)", "to_array(@)[0]", "{t: type(@)}.t", "a.b.type(@)", "to_array(a)[0]"];
+            let tail = TAILS[rng.below(TAILS.len())];
+            const PREDS: [&str; 8] = ["!a", "a != 'x'", "!@", "`true`", "@ == `null`", "a", "!a || a", "type(@) != 'number'"];
+            let pred = PREDS[rng.below(PREDS.len())];
+            let (a, b, c) = (rng.range(-3, 3), rng.range(-3, 4), [1i64, -1, 2][rng.below(3)]);
+            let flat: Vec<Value> = xs.iter().flat_map(|e| match e { Value::Array(inner) => inner.clone(), other => vec![other.clone()] }).collect();
+            let sliced: Vec<Value> = refimpl::eval::slice_indices(xs.len() as i128, Some(a as i128), Some(b as i128), c as i128).into_iter().map(|k| xs[k].clone()).collect();
+            let mut kept = Some(vec![]);
+            for e in xs.iter() {
+                match guard(s(pred, e)) {
+                    Some(Ok(v)) => { if truthy(&v) { if let Some(k) = kept.as_mut() { k.push(e.clone()) } } }
+                    _ => { kept = None; break; }
+                }
+            }
+            let mut forms: Vec<(&'static str, String, Vec<Value>)> = vec![
+                ("call-tail/list-wildcard", "xs[*]".to_string(), xs.clone()),
+                ("call-tail/slice", format!("xs[{}:{}:{}]", a, b, c), sliced),
+                ("call-tail/flatten", "xs[]".to_string(), flat),
+                ("call-tail/object-wildcard", "o.*".to_string(), xs.clone()),
+            ];
+            if let Some(k) = kept {
+                forms.push(("call-tail/filter", format!("xs[?{}]", pred), k));
+            }
+            for (law, start, elems) in forms.into_iter() {
+                let mut out = vec![];
+                let mut expected: Option<Out> = None;
+                for e in elems.iter() {
+                    match guard(s(tail, e)) {
+                        Some(Ok(v)) => { if !v.is_null() { out.push(v) } }
+                        Some(Err(cl)) => { expected = Some(Err(cl)); break; }
+                        None => { expected = Some(Err("skip".into())); break; }
+                    }
+                }
+                let expected = expected.unwrap_or(Ok(Value::Array(out)));
+                if matches!(&expected, Err(x) if x == "skip") {
+                    continue;
+                }
+                let mut cx = Ctx { rep: &mut rep, law, parts: json!({"projection": start, "right_hand_side": tail, "elements": elems}), doc: &d };
+                cx.check(&format!("{}.{}", start, tail), &expected, elems.iter().any(|e| e.is_null()));
+                if rng.chance(1, 3) {
+                    cx.check(&format!("({}.{})", start, tail), &expected, false);
+                }
+            }
+        }
+        // 8f. a call applied to the result of a call is the outer call applied to that result: f(g(x)) from
+        // g(x) and f(y), for every pair of one-argument built-ins (no pair may be fused into something else)
+        if i % 2 == 1 {
+            const ONE: [&str; 17] = ["abs", "avg", "ceil", "floor", "keys", "length", "max", "min", "reverse", "sort", "sum", "to_array", "to_number", "to_string", "type", "values", "not_null"];
+            let (f, g) = (ONE[rng.below(ONE.len())], ONE[rng.below(ONE.len())]);
+            let subject = match rng.below(6) { 0 => doc.clone(), 1 => sample_elem.clone(), 2 => l_out.clone().unwrap_or(Value::Null), 3 => json!([3, 1, 2]), 4 => json!("hello"), _ => json!({"a": "hello", "b": [1, 2, 3]}) };
+            if let Some(inner) = guard(s(&format!("{}(@)", g), &subject)) {
+                let expected: Option<Out> = match &inner {
+                    Ok(v) => guard(s(&format!("{}(@)", f), v)),
+                    Err(cl) => Some(Err(cl.clone())),
+                };
+                if let Some(expected) = expected {
+                    let mut cx = Ctx { rep: &mut rep, law: "call-of-a-call", parts: json!({"outer": f, "inner": g, "inner_result": format!("{:?}", inner)}), doc: &subject };
+                    cx.check(&format!("{}({}(@))", f, g), &expected, inner.is_ok());
+                    let three = ONE[rng.below(ONE.len())];
+                    if let Some(e3) = match &expected { Ok(v) => guard(s(&format!("{}(@)", three), v)), Err(cl) => Some(Err(cl.clone())) } {
+                        cx.check(&format!("{}({}({}(@)))", three, f, g), &e3, expected.is_ok());
+                    }
+                }
+            }
+        }
         // 9. not / and / or: truth-table combination of the operands' individual results
         {
             let not_e: Out = l_out.clone().map(|v| Value::Bool(!truthy(&v)));
